@@ -27,14 +27,48 @@ def layout(fb, suffix):
 HDR = {'magic': 'magic', 'segsize': 'segsize', 'version': 'version', 'generation': 'generation'}   # role -> field name, see OpenModel
 
 
-def name_atom(term, hdr_size, full_size):
-    """classify a condition term of the open path -> (atom name, 'passes when' truth) or None"""
+MAGIC_COMPARED = []        # the constant words the open path compares the magic field with (filled by name_atom)
+
+
+def magic_words(v):
+    """the integer words of a constant the magic is compared with, or None"""
+    while v[0] == 't' and v[1] == 'deref':
+        v = v[2][0]
+    if v[0] == 'ref' and v[1][0][0] == 'K' and not v[1][1]:
+        raw = bytes.fromhex(v[1][0][1])          # a reference to a constant [u32; N]
+        if raw and len(raw) % 4 == 0:
+            return tuple(int.from_bytes(raw[i:i + 4], 'little') for i in range(0, len(raw), 4))
+    if v[0] == 'agg' and v[3] and all(psi.is_int_const(x) for x in v[3]):
+        return tuple(x[1] for x in v[3])
+    return None
+
+
+_ARITH = ('Add', 'Sub', 'Mul', 'Div', 'Rem', 'BitAnd', 'BitOr', 'BitXor', 'Shl', 'Shr', 'wadd', 'wsub', 'Neg')
+
+
+def peel_const(x):
+    """x = L + d where d sums the integer constants added to / subtracted from L: (L, d)"""
+    d = 0
+    x = arith.strip_casts(x)
+    while x[0] == 't' and x[1] in ('Add', 'Sub'):
+        a, b = x[2]
+        cb = arith.const_num(arith.strip_casts(b))
+        if not isinstance(cb, int):
+            break
+        d += cb if x[1] == 'Add' else -cb
+        x = arith.strip_casts(a)
+    return x, d
+
+
+def name_atom(term, hdr_size, full_size, lower=None):
+    """classify a condition term of the open path -> (atom name, 'passes when' truth) or None.
+    `lower`: the largest k for which this path already knows `declared size >= k` (makes `size - k` exact)"""
     ft = fmt(term)
     if term[0] != 't':
         return None
     op = term[1]
     if op == 'Not':
-        inner = name_atom(term[2][0], hdr_size, full_size)
+        inner = name_atom(term[2][0], hdr_size, full_size, lower)
         return (inner[0], not inner[1]) if inner is not None else None
     # the nix wrappers return Result: Err exactly when the libc call reports failure
     if op == 'discr' and term[2][0][0] == 't' and term[2][0][1] == 'call' and term[2][0][2][0].startswith('nix::'):
@@ -46,8 +80,7 @@ def name_atom(term, hdr_size, full_size):
     if cc is not None:
         cop, x, c = cc
         sx = fmt(x)
-        derived_x = any(y[0] == 't' and y[1] in ('Add', 'Sub', 'Mul', 'Div', 'Rem', 'BitAnd', 'BitOr', 'BitXor', 'Shl', 'Shr', 'wadd', 'wsub', 'Neg')
-                        for y in psi.walk(x))
+        derived_x = any(y[0] == 't' and y[1] in _ARITH for y in psi.walk(x))
         ug = common.unsigned_ge(cop, c)
         if ug is not None and not derived_x and 'read#' not in sx and 'open#' not in sx and 'mmap#' not in sx:
             k, truth = ug
@@ -57,6 +90,14 @@ def name_atom(term, hdr_size, full_size):
                 return ('generation>0', truth)
             if HDR['segsize'] in sx or 'segsize' in sx:
                 return ('segsize>=%d' % k, truth)
+        if ug is not None and derived_x and 'read#' not in sx and 'open#' not in sx and 'mmap#' not in sx:
+            # `size - h >= r` on a path that knows `size >= h` is the test `size >= h + r` on the declared size itself
+            # (what `size.checked_sub(h)` followed by a comparison of the remainder spells)
+            base, d = peel_const(x)
+            sb = fmt(base)
+            plain = not any(y[0] == 't' and y[1] in _ARITH for y in psi.walk(base))
+            if plain and d < 0 and lower is not None and lower >= -d and (HDR['segsize'] in sb or 'segsize' in sb):
+                return ('segsize>=%d' % (ug[0] - d), ug[1])
     # a syscall result tested for failure, in any spelling of `ret < 0` (ret <= -1, !(ret >= 0), ret == -1 ...)
     if cc is not None:
         cop, x, c = cc
@@ -71,6 +112,15 @@ def name_atom(term, hdr_size, full_size):
                     if call == 'read#' and 'mmap#' in sx:
                         continue
                     return (atom, neg)
+    if op in ('Eq', 'Ne', 'eq', 'ne') and len(term[2]) == 2:
+        # the magic words compared as a whole (`==` on the pair, or word by word with any bit-trick spelling, which the
+        # engine reduces to one equality): record what they are compared with
+        for x, y in (term[2], term[2][::-1]):
+            if fmt(x).endswith('.%s' % HDR['magic']):
+                words = magic_words(y)
+                if words is not None:
+                    MAGIC_COMPARED.append(words)
+                return ('magic==SHM_MAGIC', op in ('Eq', 'eq'))
     if op in ('Lt', 'Le', 'Gt', 'Ge', 'Eq', 'Ne'):
         a, b = term[2]
         ca, cb = arith.const_num(arith.strip_casts(a)), arith.const_num(arith.strip_casts(b))
@@ -84,10 +134,13 @@ def name_atom(term, hdr_size, full_size):
         if 'read#' in sa and 'mmap#' not in sa and op == 'Lt' and cb is not None:
             return ('read<header(%d)' % cb, False)
         return None
-    if op == 'call' and term[2][0].endswith('::eq') and ('.%s' % HDR['magic']) in ft:
-        return ('magic==SHM_MAGIC', True)
-    if op == 'call' and term[2][0].endswith('::ne') and ('.%s' % HDR['magic']) in ft:
-        return ('magic==SHM_MAGIC', False)
+    if op == 'call' and term[2][0].endswith(('::eq', '::ne')) and ('.%s' % HDR['magic']) in ft:
+        for y in term[2][2:]:
+            if ('.%s' % HDR['magic']) not in fmt(y):
+                words = magic_words(y)
+                if words is not None:
+                    MAGIC_COMPARED.append(words)
+        return ('magic==SHM_MAGIC', term[2][0].endswith('::eq'))
     if op in ('eq',) and ('.%s' % HDR['magic']) in ft:
         return ('magic==SHM_MAGIC', True)
     if op in ('ne',) and ('.%s' % HDR['magic']) in ft:
@@ -139,12 +192,16 @@ class OpenModel:
         for p in self.engine.inlined:
             chk.analysed['functions'].add(p)
         self.rows = []
+        del MAGIC_COMPARED[:]
         for p in self.paths:
             atoms = []
             unknown = []
+            lower = None
             for term, op, val, _ in p.conds:
                 t = truth_of(op, val)
-                a = name_atom(term, self.hdr_size, self.hdr_size + self.rec_size)
+                a = name_atom(term, self.hdr_size, self.hdr_size + self.rec_size, lower)
+                if a is not None and t is not None and a[0].startswith('segsize>=') and t == a[1]:
+                    lower = max(lower or 0, int(a[0][len('segsize>='):]))
                 if a is None and term[0] == 't' and term[1] == 'call' and 'atomic' in term[2][0] and term[2][0].endswith('::load'):
                     # `match x.load() { 0 => .., _ => .. }` / `if x.load() == 0`: a switch on the loaded integer itself
                     k = val if op == '==' else (val[0] if len(val) == 1 else None)
@@ -162,4 +219,5 @@ class OpenModel:
             adds = [ef for ef in p.effects if ef['kind'] == 'call' and ef['callee'].startswith('std::ptr::') and ef['callee'].endswith(common.PTR_ADVANCE)]
             self.fb = fb
             self.rows.append({'path': p, 'atoms': atoms, 'unknown': unknown, 'result': res, 'adds': adds})
+        self.magic_compared = sorted(set(MAGIC_COMPARED))
         self.ok = True
